@@ -263,7 +263,10 @@ func (t *Tables) Exec(c *t_aio.Command) (*MResult, error) {
 	case t_aio.UpdatePromise:
 		cmd := c.UpdatePromise
 		var n int64
-		if p, ok := t.Promises[cmd.Id]; ok && p.State == 1 {
+		if old, ok := t.Promises[cmd.Id]; ok && old.State == 1 {
+			cp := *old
+			p := &cp
+			t.Promises[cmd.Id] = p
 			p.State = int(cmd.State)
 			p.ValueHeaders = mj(cmd.Value.Headers)
 			p.ValueData = sp(string(cmd.Value.Data))
@@ -387,7 +390,10 @@ func (t *Tables) Exec(c *t_aio.Command) (*MResult, error) {
 		cmd := c.UpdateSchedule
 		var n int64
 		// advance only if the schedule still stands at the occurrence being fired
-		if s, ok := t.Schedules[cmd.Id]; ok && cmd.LastRunTime != nil && s.NextRunTime == *cmd.LastRunTime {
+		if old, ok := t.Schedules[cmd.Id]; ok && cmd.LastRunTime != nil && old.NextRunTime == *cmd.LastRunTime {
+			cp := *old
+			s := &cp
+			t.Schedules[cmd.Id] = s
 			s.LastRunTime = ip(s.NextRunTime)
 			s.NextRunTime = cmd.NextRunTime
 			n = 1
@@ -505,8 +511,11 @@ func (t *Tables) Exec(c *t_aio.Command) (*MResult, error) {
 	case t_aio.CompleteTasks:
 		cmd := c.CompleteTasks
 		var n int64
-		for _, k := range t.Tasks {
-			if k.RootPromiseId == cmd.RootPromiseId && (k.State == 1 || k.State == 2 || k.State == 4) {
+		for id, old := range t.Tasks {
+			if old.RootPromiseId == cmd.RootPromiseId && (old.State == 1 || old.State == 2 || old.State == 4) {
+				cp := *old
+				k := &cp
+				t.Tasks[id] = k
 				k.State = 8
 				k.CompletedOn = ip(cmd.CompletedOn)
 				n++
@@ -521,7 +530,10 @@ func (t *Tables) Exec(c *t_aio.Command) (*MResult, error) {
 			mask |= int(s)
 		}
 		var n int64
-		if k, ok := t.Tasks[cmd.Id]; ok && k.State&mask != 0 && k.Counter == int64(cmd.CurrentCounter) {
+		if old, ok := t.Tasks[cmd.Id]; ok && old.State&mask != 0 && old.Counter == int64(cmd.CurrentCounter) {
+			cp := *old
+			k := &cp
+			t.Tasks[cmd.Id] = k
 			k.ProcessId = cps(cmd.ProcessId)
 			k.State = int(cmd.State)
 			k.Counter = int64(cmd.Counter)
@@ -536,8 +548,11 @@ func (t *Tables) Exec(c *t_aio.Command) (*MResult, error) {
 	case t_aio.HeartbeatTasks:
 		cmd := c.HeartbeatTasks
 		var n int64
-		for _, k := range t.Tasks {
-			if k.State == 4 && k.ProcessId != nil && *k.ProcessId == cmd.ProcessId {
+		for id, old := range t.Tasks {
+			if old.State == 4 && old.ProcessId != nil && *old.ProcessId == cmd.ProcessId {
+				cp := *old
+				k := &cp
+				t.Tasks[id] = k
 				k.ExpiresAt = addSat(cmd.Time, k.Ttl)
 				n++
 			}
@@ -569,6 +584,9 @@ func (t *Tables) Exec(c *t_aio.Command) (*MResult, error) {
 			t.Locks[cmd.ResourceId] = &Lock{ResourceId: cmd.ResourceId, ExecutionId: cmd.ExecutionId, ProcessId: cmd.ProcessId, Ttl: cmd.Ttl, ExpiresAt: cmd.ExpiresAt}
 			n = 1
 		} else if l.ExecutionId == cmd.ExecutionId {
+			cp := *l
+			l = &cp
+			t.Locks[cmd.ResourceId] = l
 			l.ProcessId, l.Ttl, l.ExpiresAt = cmd.ProcessId, cmd.Ttl, cmd.ExpiresAt
 			n = 1
 		}
@@ -586,8 +604,11 @@ func (t *Tables) Exec(c *t_aio.Command) (*MResult, error) {
 	case t_aio.HeartbeatLocks:
 		cmd := c.HeartbeatLocks
 		var n int64
-		for _, l := range t.Locks {
-			if l.ProcessId == cmd.ProcessId {
+		for id, old := range t.Locks {
+			if old.ProcessId == cmd.ProcessId {
+				cp := *old
+				l := &cp
+				t.Locks[id] = l
 				l.ExpiresAt = addSat(cmd.Time, l.Ttl)
 				n++
 			}
